@@ -10,7 +10,7 @@
 //   recursive  <g> items <g> items </g> items </g>: the same constraint is active twice at different depths;
 //   up         key/unique on <h>, keyref on the enclosing <g>: <g> refs <h>keys</h><h>keys</h> refs </g> (node-table propagation).
 // Each document is validated by {IGXMLScanner,SGXMLScanner} x {SAX2,DOM}; errors are bucketed by line and classified by message.
-//   --space values|root|paths|scopes|growth|file
+//   --space values|root|paths|rootpaths|scopes|growth|witness|file
 #include "c10_ref.hpp"
 #include "xv_xml.hpp"
 using namespace xv;
@@ -821,6 +821,80 @@ static void make_cases(uint32_t chunk) {
     }
 }
 
+// =============================================================================================== defect witnesses
+// One minimal, strict, hand-written witness per entry of KNOWN_DEFECTS (same id).  The `witness` space runs them WITHOUT the KNOWN_DEFECTS guard and
+// reports every one that still fails as a violation of kind `defect:<id>` (the framework turns those into KNOWN-FINDING lines).  The other spaces run
+// the witnesses once at start-up and drop the skip predicate of every defect whose witness passes (= the defect has been fixed).
+struct Witness { const char* id; const char* what; std::string xsd, xml; bool expectValid; const char* expected; };
+static std::vector<Witness> WITNESSES;
+static void init_witnesses() {
+    const std::string H = "<d xmlns:xsi=\"http://www.w3.org/2001/XMLSchema-instance\" xsi:noNamespaceSchemaLocation=\"s.xsd\">";
+    const std::string XS = "<xs:schema xmlns:xs=\"http://www.w3.org/2001/XMLSchema\">\n";
+    const std::string upXsd = XS +
+        "<xs:complexType name=\"C\"><xs:choice minOccurs=\"0\" maxOccurs=\"unbounded\"><xs:element ref=\"r\"/><xs:element ref=\"q\"/><xs:element ref=\"g\"/><xs:element ref=\"h\"/></xs:choice></xs:complexType>\n"
+        "<xs:element name=\"d\" type=\"C\"/>\n"
+        "<xs:element name=\"g\" type=\"C\"><xs:keyref name=\"KR\" refer=\"K\"><xs:selector xpath=\"q\"/><xs:field xpath=\"@k\"/></xs:keyref></xs:element>\n"
+        "<xs:element name=\"h\" type=\"C\"><xs:key name=\"K\"><xs:selector xpath=\"r\"/><xs:field xpath=\"@k\"/></xs:key></xs:element>\n"
+        "<xs:complexType name=\"R\"><xs:attribute name=\"k\" type=\"xs:integer\"/></xs:complexType>\n"
+        "<xs:element name=\"r\" type=\"R\"/><xs:element name=\"q\" type=\"R\"/>\n</xs:schema>\n";
+    WITNESSES.push_back({"sibling-scope-keys-lost-for-ancestor-keyref",
+        "key on <h>, keyref on the enclosing <g>: the keys of the first <h> are wiped when a second sibling <h> starts (ValueStoreCache::initValueStoresFor clear()s the store transplant() published)",
+        upXsd, H + "<g><h><r k=\"1\"/></h><h/><q k=\"1\"/></g></d>", true, "valid: the keyref value 1 is a key of the first <h> (no error)"});
+    WITNESSES.push_back({"recursive-scope-false-field-multiple-match",
+        "unique with selector .//r and element field k on a recursive element: FieldActivator::fMayMatch is shared by the two active instances of the constraint",
+        XS + "<xs:complexType name=\"C\"><xs:choice minOccurs=\"0\" maxOccurs=\"unbounded\"><xs:element ref=\"r\"/><xs:element ref=\"g\"/></xs:choice></xs:complexType>\n"
+             "<xs:element name=\"d\" type=\"C\"/>\n"
+             "<xs:element name=\"g\" type=\"C\"><xs:unique name=\"U\"><xs:selector xpath=\".//r\"/><xs:field xpath=\"k\"/></xs:unique></xs:element>\n"
+             "<xs:element name=\"r\"><xs:complexType><xs:sequence><xs:element name=\"k\" type=\"xs:integer\"/></xs:sequence></xs:complexType></xs:element>\n</xs:schema>\n",
+        H + "<g><g><r><k>1</k></r></g></g></d>", true, "valid: every <r> has exactly one <k> (no error)"});
+    WITNESSES.push_back({"keyref-out-of-scope-without-any-reference",
+        "keyref that selects nothing while no element hosting the referenced key occurs: ValueStore::endDocumentFragment reports IC_KeyRefOutOfScope although 3.11.4 clause 4.3 is vacuously true",
+        upXsd, H + "<g/></d>", true, "valid: the keyref has no member (no error)"});
+    WITNESSES.push_back({"empty-string-of-related-types-unequal",
+        "key field xs:token, keyref field xs:string, both values empty: ICValueHasher::isDuplicateOf answers dv1 == dv2 for two empty values",
+        XS + "<xs:element name=\"d\"><xs:complexType><xs:choice minOccurs=\"0\" maxOccurs=\"unbounded\"><xs:element ref=\"r\"/><xs:element ref=\"q\"/></xs:choice></xs:complexType>\n"
+             " <xs:key name=\"K\"><xs:selector xpath=\"r\"/><xs:field xpath=\"@k\"/></xs:key>\n"
+             " <xs:keyref name=\"KR\" refer=\"K\"><xs:selector xpath=\"q\"/><xs:field xpath=\"@k\"/></xs:keyref></xs:element>\n"
+             "<xs:element name=\"r\"><xs:complexType><xs:attribute name=\"k\" type=\"xs:token\"/></xs:complexType></xs:element>\n"
+             "<xs:element name=\"q\"><xs:complexType><xs:attribute name=\"k\" type=\"xs:string\"/></xs:complexType></xs:element>\n</xs:schema>\n",
+        H + "<r k=\"\"/><q k=\"\"/></d>", true, "valid: the empty token and the empty string are the same value (no error)"});
+    WITNESSES.push_back({"float-not-rounded-to-single-precision",
+        "xs:float literals 1 and 1.00000001 denote the same single-precision value but XMLFloat compares them in double precision",
+        XS + "<xs:element name=\"d\"><xs:complexType><xs:sequence><xs:element ref=\"r\" maxOccurs=\"unbounded\"/></xs:sequence></xs:complexType>\n"
+             " <xs:unique name=\"U\"><xs:selector xpath=\"r\"/><xs:field xpath=\"@k\"/></xs:unique></xs:element>\n"
+             "<xs:element name=\"r\"><xs:complexType><xs:attribute name=\"k\" type=\"xs:float\"/></xs:complexType></xs:element>\n</xs:schema>\n",
+        H + "<r k=\"1\"/><r k=\"1.00000001\"/></d>", false, "invalid: IC_DuplicateUnique (both literals map to the float 1.0)"});
+}
+// runs witness w under every configuration; returns "" if it behaves as the specification demands, else a description of what was observed
+static std::string witness_observed(const Witness& w, std::string* cfgOut = nullptr) {
+    for (auto& cfg : CFGS) {
+        g_vfs->clear();
+        g_vfs->put("/v/s.xsd", w.xsd);
+        ParseResult r = validate(cfg, w.xml);
+        g_vfs->clear();
+        std::string all;
+        bool dupUnique = false;
+        for (auto& e : r.errors) { all += e + "\n"; if (classify(split_err(e).msg) == EC_DUP_UNIQUE) dupUnique = true; }
+        bool bad = !r.exc.empty() || r.fatals || (w.expectValid ? !r.errors.empty() : !dupUnique);
+        if (bad) {
+            if (cfgOut) *cfgOut = cfg.str();
+            if (!r.exc.empty()) return "exception " + r.exc;
+            return all.empty() ? std::string("no error reported") : all;
+        }
+    }
+    return "";
+}
+static void run_witness(uint64_t idx, Ctx& c) {
+    const Witness& w = WITNESSES[idx];
+    std::string cfg, obs = witness_observed(w, &cfg);
+    c.count("witnesses_run");
+    if (c.verbose) printf("witness %s\n  %s\nschema:\n%s\ndocument:\n%s\nexpected: %s\nobserved: %s\n", w.id, w.what, w.xsd.c_str(), w.xml.c_str(), w.expected, obs.empty() ? "as expected" : obs.c_str());
+    if (obs.empty()) { c.count(std::string("witness_passes:") + w.id); return; }
+    c.count(std::string("witness_fails:") + w.id);
+    c.violation(std::string("defect:") + w.id, "\"what\":" + jstr(w.what) + ",\"config\":" + jstr(cfg) + ",\"document\":" + jstr(w.xml) + ",\"expected\":" + jstr(w.expected) + ",\"observed\":" + jstr(obs) +
+                                                  ",\"schema\":" + jstr(w.xsd));
+}
+
 static std::string slurp(const std::string& p) {
     std::string s; FILE* f = fopen(p.c_str(), "rb"); if (!f) return s;
     char b[4096]; size_t n; while ((n = fread(b, 1, sizeof b, f)) > 0) s.append(b, n); fclose(f); return s;
@@ -844,6 +918,24 @@ int main(int argc, char** argv) {
         g_vfs->clear(); g_vfs->put("/v/s.xsd", w.xsd); g_vfs->put("/v/p.xsd", w.pxsd);
         for (auto& cfg : CFGS) validate(cfg, std::string(DOC_OPEN) + "<g><r><k>1</k></r></g></d>");
         g_vfs->clear();
+    }
+    init_witnesses();
+    if (space == "witness") {   // one strict witness per known defect, no KNOWN_DEFECTS guard
+        Runner R;
+        R.name = space; R.total = WITNESSES.size(); R.fn = run_witness;
+        R.describe = [](uint64_t i) { return "{\"witness\":" + jstr(WITNESSES[i].id) + "}"; };
+        R.extra_json = "\"bounds\":{\"witnesses\":" + std::to_string(WITNESSES.size()) + "},\"configs\":4";
+        return R.main_tail(a);
+    }
+    std::string activeKnown;
+    if (g_use_known) {   // a defect whose witness passes has been fixed: its lists are compared strictly again
+        std::vector<KnownDefect> keep;
+        for (auto& kd : KNOWN_DEFECTS) {
+            bool fails = true;
+            for (auto& w : WITNESSES) if (std::string(w.id) == kd.id) fails = !witness_observed(w).empty();
+            if (fails) { keep.push_back(kd); activeKnown += std::string(activeKnown.empty() ? "" : ",") + jstr(kd.id); }
+        }
+        KNOWN_DEFECTS = keep;
     }
     if (space == "file") {   // probe: validate --xml against --xsd (and --pxsd) with all four configurations
         for (auto& cfg : CFGS) {
@@ -906,6 +998,6 @@ int main(int argc, char** argv) {
     R.fn = run_case;
     R.describe = [](uint64_t i) { const CaseRef& cr = CASES[i]; return "{\"def\":" + jstr(DEFS[cr.def].describe()) + ",\"first_list\":" + std::to_string(cr.first) + ",\"count\":" + std::to_string(cr.count) + "}"; };
     R.extra_json = "\"bounds\":{\"definitions\":" + std::to_string(DEFS.size()) + ",\"documents\":" + std::to_string(CASES.size()) + ",\"lists\":" + std::to_string(lists) +
-                   ",\"max_item_alphabet\":" + std::to_string(maxItems) + "," + bounds + "},\"configs\":4";
+                   ",\"max_item_alphabet\":" + std::to_string(maxItems) + "," + bounds + "},\"configs\":4,\"known_defects_active\":[" + activeKnown + "]";
     return R.main_tail(a);
 }
